@@ -262,8 +262,14 @@ def space(tier):
             seen.add(canon)
             settings.append(txt)
             effects.append([eff[0]] + [x.hex() if isinstance(x, bytes) else x for x in eff[1:]])
-        if cfg["capabilities"]:
+        if cfg["capabilities"] and any(e[0] != "state" for e in effects):
             cfg["capabilities"] = False      # keep property ids independent of a capability profile
+        elif cfg["capabilities"] or (all(e[0] == "state" for e in effects) and rng.random() < 0.2):
+            # --capabilities with a unit that does not advertise custom fan speeds (or anything about fan speeds)
+            # while it runs at a speed without a name: what was not mentioned on the command line stays as reported
+            cfg["capabilities"] = True
+            cfg["caps_pages"] = [[rng.choice([[[0x0214, "01"], [0x0215, "01"]], [[0x0210, "07"], [0x0214, "01"]],
+                                              [[0x0210, "05"], [0x0212, "01"]], [[0x0210, "01"]]]), None]]
         return {"config": cfg, "settings": settings, "effects": effects, "valid": True}
     sp.add("valid", 12000 if tier == "quick" else 800_000, valid)
 
